@@ -117,6 +117,7 @@ def capacity_chunk(kind_n):
     from proof_generation.proof import ProofExp
     kind, n = kind_n
     h = par.harness()
+    optimize = False
     out = {'evals': 1, 'refused': 0, 'encoded': 0, 'viol': []}
     try:
         if kind == 'symbols':
@@ -135,12 +136,28 @@ def capacity_chunk(kind_n):
             m = ProofExp(axioms=axioms)
             m._claims = [axioms[-1]]
             m._proof_expressions = [m.load_axiom(axioms[-1])]
+        elif kind == 'memo':
+            # n distinct small patterns, each built twice (as plugs for metavariables the conclusion does not mention):
+            # n candidates for memory slots when the optimising stack is used; 2 axioms occupy slots already
+            plugs = [P.App(P.EVar(i // 20), P.EVar(i % 20)) for i in range(n)]
+            goal = P.Implies(P.MetaVar(0), P.Implies(P.MetaVar(1), P.MetaVar(0)))
+            m = ProofExp(axioms=[P.Implies(P.EVar(0), P.EVar(0)), P.Symbol('a')], claims=[goal])
+            groups = [plugs[k:k + 200] for k in range(0, n, 200)]
+            pf = m.prop1()
+            for g in groups + groups:
+                pf = m.instantiate(pf, {10 + k: pl for k, pl in enumerate(g)})
+            m.add_proof_expression(pf)
+            pyrun.serialize_real(m, False)       # the plain stack has no slot problem: a failure here is not a capacity refusal
+            optimize = True
         else:
             raise ValueError(kind)
-        files = pyrun.serialize_real(m, False)
+        files = pyrun.serialize_real(m, optimize)
     except Exception as ex:  # noqa: BLE001
         out['refused'] = 1
         out['refusal'] = type(ex).__name__
+        if kind == 'memo':
+            out['viol'].append(({'kind': 'capacity_optimise_fails', 'what': kind, 'n': n},
+                                f'memo={n}: serialize(optimize=True) raised {type(ex).__name__}: {str(ex)[:120]} on a module the plain serialiser encodes'))
         return out
     out['encoded'] = 1
     g, c, p = pyrun.triple(files)
@@ -154,6 +171,10 @@ def capacity_chunk(kind_n):
     if len(ax) != len(want) or not all(sm.unify(w, d) for w, d in zip(want, ax)):
         out['viol'].append(({'kind': 'capacity_ambiguous', 'what': kind, 'n': n},
                             f'{kind}={n}: the module was encoded but the decoded axioms do not correspond injectively to the declared ones (id wrapped?)'))
+    if kind == 'memo':
+        pr = [t for k, t in j if k == 'proved']
+        if len(pr) != 1 or rm.show(pr[0]) != rm.show(bridge.expand(m._claims[0])):
+            out['viol'].append(({'kind': 'capacity_ambiguous', 'what': kind, 'n': n}, f'memo={n}: the optimised proof does not prove the claim'))
     if kind == 'memory':
         pr = [t for k, t in j if k == 'proved']
         if len(pr) != 1 or not sm.unify(want[-1], pr[0]):
@@ -187,7 +208,7 @@ def main(argv=None) -> int:
     common.build_harness()
     from . import modgraph
     agg: dict = {}
-    specs = modgraph.family(6 if thorough else 4)
+    specs = modgraph.family(6 if thorough else 4) + modgraph.twin_family()
     for out in par.pmap(module_chunk, par.chunks(specs, common.ncpu() * 4)):
         for k, v in out.items():
             if k == 'viol':
@@ -196,7 +217,8 @@ def main(argv=None) -> int:
             else:
                 agg[k] = agg.get(k, 0) + v
     caps = [('symbols', n) for n in (1, 2, 255, 256, 257, 258, 300)] + [('evar_id', n) for n in (255, 256, 300)] + \
-           [('metavar_id', n) for n in (255, 256)] + [('memory', n) for n in (255, 256, 257, 258)]
+           [('metavar_id', n) for n in (255, 256)] + [('memory', n) for n in (255, 256, 257, 258)] + \
+           [('memo', n) for n in (3, 200, 253, 254, 255, 256, 257, 300, 400)]
     refused, encoded = [], []
     for (kind, n), out in zip(caps, par.pmap(capacity_chunk, caps)):
         agg['capacity_cases'] = agg.get('capacity_cases', 0) + 1
